@@ -521,14 +521,21 @@ def step (M : Machine) (obj : HostVal) (codeLen : Nat) (runBody : Bytes → RunS
     | .iterationNext =>
       match stack with
       | varName :: idxName :: it :: rest =>
-        let cur : Option (Value × Nat) :=
+        -- In the Go code the iteration offset lives inside the iterated object.  OpIterationReset
+        -- gives every loop its own copy, modelled as `iterating v off`.  A plain array, string or hash
+        -- in this position can only get here when a statement of the loop body left a value on the
+        -- stack (known finding KF-7); what happens then depends on the hidden offset of whatever
+        -- object that is (a shared constant keeps its offset from one turn to the next), which this
+        -- model does not track: it declines to answer.
+        let cur : Option (Option (Value × Nat)) :=
           match it with
-          | .iterating v off => some (v, off)
-          | .array _ | .str _ | .hash _ => some (it, 0)
+          | .iterating v off => some (some (v, off))
+          | .array _ | .str _ | .hash _ => some none
           | _ => none
         match cur with
+        | some none => .halt (.error .unsupported) st
         | none => if it.type?.isNone then .halt (.error .panic) st else fail "notIterable"
-        | some (v, off) =>
+        | some (some (v, off)) =>
           match iterNext v off with
           | some (x, idx) =>
             let env := st.env.declare varName.inspect x
